@@ -53,7 +53,9 @@ def c16(out, kmax_exh, nsample, seed, ngen):
             ([0, 3, 4, 5, 14, 17, 19, 23, 12], 3), ([2, 6, 8, 11, 13, 16], 3), ([1, 7, 9, 10, 15, 20, 21, 22], 4), ([0, 1, 2, 3], 2)]
     # the same gates in a different order, same subgroup size, one process: verdicts must not leak between generators
     perm_runs = [([0, 1, 4, 6], 2), ([0, 4, 1, 6], 2), ([1, 0, 6, 4], 2), ([2, 3, 8, 20], 2), ([2, 8, 3, 20], 2), ([5, 7, 11, 15, 19, 22], 3), ([7, 5, 15, 11, 22, 19], 3), ([22, 19, 15, 11, 7, 5], 3)]
-    for idx, size in runs[:ngen] + perm_runs:
+    # first a list whose gates are pairwise compatible, then lists (same length, same subgroup size) whose gates all collide
+    lead_runs = [([0, 6, 17, 23], 2), ([10, 11, 12, 13], 2), ([0, 6, 17, 23, 8, 15], 3), ([10, 11, 12, 13, 4, 5], 3)]
+    for idx, size in lead_runs + runs[:ngen] + perm_runs:
         es = [edges[i] for i in idx]
         gen = GateSequenceGenerator(included_edge_ids=es, connectivity=S)
         ident = gen.construct_allowed_gate_sequences(subgroup_size=size)
